@@ -6,7 +6,7 @@ the MODELS of the sub-algorithms verified by the other properties:
   pp                C08 `perfect_power_spec`        (Model/Arith.lean)      `UsesPerfectPower`
   sieveDivs, qs64   C11 `final_step_proper`         (Model/Relations.lean)  `UsesFinalStep`, `UsesQs64`
   rho               C16 `rho64_proper`              (Model/ExpModn.lean)    `UsesRho64`
-  pm1q, pm1         C16 `check_gcd_factors_inv`, `gcd_factors_prod`,
+  pm1q, pm1         C16 `check_gcd_factors_inv`, `pm1_polyeval_inv`,
                         `pm1_result_proper`                                  `UsesPm1`
   ecmauto/ecm/ecm128  C16 `guard_proper`, `check_gcd_factor_proper`          `UsesEcmExits`
   squfof            exits of squfof.rs (+ named fact `p_prev < n`)            `UsesSqufofExit`
@@ -117,10 +117,12 @@ open Ymq.ExpModn in
 * `values`: the value list is replaced (next prime block, stage 2 products);
 * `check`: one call of `check_gcd_factors` (modelled by `checkGcdFactors`, C16) on a non-empty
   list of cumulative products (the chain condition is C16 `cumulative_products_chain`);
-* `polyeval`: the stage-2 polynomial path (pollard_pm1.rs:356-365): `gcd_factors(nred, vals)` is
-  appended WITHOUT passing through `check_gcd_factors`. There is no `fs.contains(n)` guard on
-  this path, so `n ∉ f2` is a premise of this constructor: it is the one conjunct of the P-1
-  contract that no guard in the code and no theorem of C16 provides (see `UsesPm1`). -/
+* `polyeval`: the stage-2 polynomial path (pollard_pm1.rs, `b2 > MULTIEVAL_THRESHOLD`), modelled
+  by `pm1PolyStep` (C16): `gcd_factors(nred, vals)` is appended without `check_gcd_factors`, but
+  since the `fix:` 9b94f92 a list containing `n` is refused (`return None`); C16
+  `pm1_polyeval_inv` gives the invariant (in particular `n ∉ f2`). Before that repair
+  `n ∉ f2` had to be a premise here — and was false for the code:
+  `factor(26881623424511, Algo::Pm1)` recursed forever on `([n], 1)`. -/
 inductive Pm1Reach (n : Nat) (pp : Nat → Bool) : CgfState → Prop
   | init (vals : List Nat) : Pm1Reach n pp { factors := [], nred := n, vals := vals }
   | values (st : CgfState) (vals : List Nat) : Pm1Reach n pp st →
@@ -129,11 +131,10 @@ inductive Pm1Reach (n : Nat) (pp : Nat → Bool) : CgfState → Prop
       (∀ i j, i ≤ j → j < st.vals.length →
         Nat.gcd st.nred (st.vals.getD i 0) ∣ Nat.gcd st.nred (st.vals.getD j 0)) →
       checkGcdFactors n pp st = some (b, st') → Pm1Reach n pp st'
-  | polyeval (st : CgfState) (f2 : List Nat) (n2 : Nat) : Pm1Reach n pp st → st.vals ≠ [] →
+  | polyeval (st st' : CgfState) : Pm1Reach n pp st → st.vals ≠ [] →
       (∀ i j, i ≤ j → j < st.vals.length →
         Nat.gcd st.nred (st.vals.getD i 0) ∣ Nat.gcd st.nred (st.vals.getD j 0)) →
-      gcdFactors st.nred st.vals pp = some (f2, n2) → n ∉ f2 →
-      Pm1Reach n pp { factors := st.factors ++ f2, nred := n2, vals := [] }
+      pm1PolyStep n pp st = some (some st') → Pm1Reach n pp st'
 
 open Ymq.ExpModn in
 /-- every reachable state satisfies the invariant of C16 (`factors.prod · nred = n`, parts `> 1`,
@@ -149,37 +150,20 @@ theorem Pm1Reach.inv {n : Nat} (hn : 0 < n) {pp : Nat → Bool} {st : CgfState}
     injection hc' with hc'
     injection hc' with _ h2
     rw [h2]; exact hinv
-  | polyeval st f2 n2 _ hne hchain hg hnot ih =>
-    obtain ⟨hprod, hgt, hpos, hnin⟩ := ih
-    obtain ⟨facs, rest, hg', _, hfr, hfgt, _⟩ :=
-      Ymq.C16.gcd_factors_prod st.nred st.vals pp hpos hne hchain
-    rw [hg] at hg'
-    injection hg' with hg'
-    injection hg' with h1 h2
-    subst h1 h2
-    refine ⟨?_, ?_, ?_, ?_⟩
-    · show (st.factors ++ f2).prod * n2 = n
-      rw [List.prod_append, Nat.mul_assoc, hfr, hprod]
-    · intro f hf
-      rcases List.mem_append.mp hf with hf | hf
-      · exact hgt f hf
-      · exact hfgt f hf
-    · show 0 < n2
-      rcases Nat.eq_zero_or_pos n2 with h0 | h0
-      · rw [h0, Nat.mul_zero] at hfr; omega
-      · exact h0
-    · intro hmem
-      rcases List.mem_append.mp hmem with hf | hf
-      · exact hnin hf
-      · exact hnot hf
+  | polyeval st st' _ hne hchain hstep ih =>
+    obtain ⟨r, hr, hprop⟩ := Ymq.C16.pm1_polyeval_inv n pp st ih hne hchain
+    rw [hstep] at hr
+    injection hr with hr
+    exact (hprop st' hr.symm).1
 
 /-- `pm1_quick` / `pm1_only` return `splitResult` (= `Some((factors, nred))` iff `factors` is
 non-empty) of a state reachable by `pm1_impl`. Which guard gives which conjunct of `SplitOK`:
 * `as.prod * b = n`, parts `> 1`: `gcd_factors` (C16 `gcd_factors_prod`) through the invariant;
 * `as ≠ []` (hence `b < n`): `if factors.is_empty() { None }` at every return;
 * `a ≠ n` for `a ∈ as` (hence `a < n`): the `fs.contains(n)` guard of `check_gcd_factors`
-  (pollard_pm1.rs:425, C16 `check_gcd_factors_inv`) — and, on the `polyeval` path only, the
-  premise `n ∉ f2` of `Pm1Reach.polyeval`, which NO guard provides (residual assumption). -/
+  (pollard_pm1.rs:425, C16 `check_gcd_factors_inv`) and, on the polynomial path, the guard
+  `if f2.contains(n) { return None }` added by the `fix:` 9b94f92 (C16 `pm1_polyeval_inv`).
+No residual assumption is left in this clause. -/
 def UsesPm1 (o : Oracle σ) : Prop :=
   (∀ t n as b, (o.pm1q t n).1 = some (as, b) →
     ∃ pp st, Pm1Reach n pp st ∧ Ymq.ExpModn.splitResult st = some (as, b)) ∧
